@@ -461,41 +461,55 @@ func restrict(s runeSet, op token.Token, k int64, pol bool) runeSet {
 // runesReaching computes, for rune-typed SSA value c, the set of values of c with which each block can be reached
 // from c's defining block (forward dataflow over comparisons of c with constants; other conditions split nothing).
 func runesReaching(c ssa.Value, start *ssa.BasicBlock) map[*ssa.BasicBlock]runeSet {
-	state := map[*ssa.BasicBlock]runeSet{start: fullRunes()}
-	work := []*ssa.BasicBlock{start}
-	iter := 0
-	for len(work) > 0 && iter < 10000 {
-		iter++
-		b := work[0]
-		work = work[1:]
-		cur := state[b]
-		for i, s := range b.Succs {
-			if s == start || !start.Dominates(s) {
-				continue // next iteration / outside the region where c is this value
+	return runesReachingFrom(c, start, fullRunes())
+}
+
+// runesReachingFrom: the same with the set of values c can have on entry to `start` given (a helper's rune parameter
+// at the helper's entry block: the set with which the caller's rune reaches the call).
+func runesReachingFrom(c ssa.Value, start *ssa.BasicBlock, init runeSet) map[*ssa.BasicBlock]runeSet {
+	state := map[*ssa.BasicBlock]runeSet{start: init}
+	// edge[{b, s}]: the values of c with which control goes from b to s. A condition that is a phi of a short-circuit
+	// expression used as a value (`case a || b:` of a tagless switch) is decided per incoming edge of the phi's block.
+	edge := map[[2]*ssa.BasicBlock]runeSet{}
+	// chaotic iteration to the fixpoint (sets only grow; a split on a phi defined in an earlier block depends on edges
+	// that are not this block's own, so every reached block is revisited until nothing changes)
+	for round, changed := 0, true; changed && round < 1000; round++ {
+		changed = false
+		for _, b := range start.Parent().Blocks {
+			cur, reached := state[b]
+			if !reached {
+				continue
 			}
-			out := cur
-			if iff, ok := b.Instrs[len(b.Instrs)-1].(*ssa.If); ok && len(b.Succs) == 2 && b.Succs[0] != b.Succs[1] {
-				cond, pol := normCond(iff.Cond, i == 0)
-				if bo, ok := cond.(*ssa.BinOp); ok {
-					if bo.X == c {
-						if k, isC := constIntOrRune(bo.Y); isC {
-							out = restrict(cur, bo.Op, k, pol)
-						}
-					} else if bo.Y == c {
-						if k, isC := constIntOrRune(bo.X); isC {
-							out = restrict(cur, flipOp(bo.Op), k, pol)
-						}
+			var onTrue, onFalse runeSet
+			iff, isIf := b.Instrs[len(b.Instrs)-1].(*ssa.If)
+			split := isIf && len(b.Succs) == 2 && b.Succs[0] != b.Succs[1]
+			if split {
+				onTrue, onFalse = runeSplit(c, iff.Cond, cur, start, edge, 0)
+			}
+			for i, s := range b.Succs {
+				if s == start || !start.Dominates(s) {
+					continue // next iteration / outside the region where c is this value
+				}
+				out := cur
+				if split {
+					if i == 0 {
+						out = onTrue
+					} else {
+						out = onFalse
 					}
 				}
-			}
-			merged := state[s].union(out)
-			if !merged.equal(state[s]) || state[s] == nil {
-				if state[s] == nil && len(merged) == 0 {
-					state[s] = runeSet{}
-				} else {
-					state[s] = merged
+				key := [2]*ssa.BasicBlock{b, s}
+				old, seen := edge[key]
+				if seen && out.equal(old) {
+					continue
 				}
-				work = append(work, s)
+				changed = true
+				edge[key] = old.union(out)
+				merged := state[s].union(out)
+				if len(merged) == 0 {
+					merged = runeSet{}
+				}
+				state[s] = merged
 			}
 		}
 	}
@@ -534,107 +548,134 @@ func ruleC17JS(p *Prog, a *Anchors, r *Report) {
 	}
 	want := runeSet{{'a', 'z'}, {'A', 'Z'}, {' ', ' '}, {'/', '/'}}
 	nRaw, nFmt := 0, 0
-	// the rune variable: result #0 of utf8.DecodeRuneInString (or the range value)
-	var rawRune ssa.Value
-	for _, b := range f.Blocks {
-		for _, in := range b.Instrs {
-			if c, ok := in.(*ssa.Call); ok && c.Common().StaticCallee() != nil {
-				n := p.extName(c.Common().StaticCallee())
-				if n == "(*bytes.Buffer).WriteRune" || n == "(*strings.Builder).WriteRune" {
-					rawRune = c.Common().Args[1]
-				}
-			}
-		}
-	}
-	for _, b := range f.Blocks {
-		for _, in := range b.Instrs {
-			c, ok := in.(*ssa.Call)
-			if !ok || c.Common().StaticCallee() == nil {
-				continue
-			}
-			name := p.extName(c.Common().StaticCallee())
-			switch name {
-			case "(*bytes.Buffer).WriteRune", "(*strings.Builder).WriteRune":
-				nRaw++
-				cv := c.Common().Args[1]
-				def, ok := cv.(ssa.Instruction)
-				if !ok {
-					r.Unk("escapejs:raw", p.InstrPos(in), "the raw rune is not a local value")
+	// the rune variable: result #0 of utf8.DecodeRuneInString (or the range value): what the filter itself writes raw,
+	// or what it hands to the per-rune writer it has been split into
+	rawRune := jsRawRune(p, f)
+	// scan judges the sinks of one unit: the filter function itself, or a helper the per-rune writing was moved into
+	// (fn is then the helper, rawRune its parameter that stands for the rune just read, and reach the values of that
+	// rune per block of fn, starting from the set with which the caller reaches the call).
+	var scan func(fn *ssa.Function, rawRune ssa.Value, reach map[*ssa.BasicBlock]runeSet, depth int)
+	scan = func(fn *ssa.Function, rawRune ssa.Value, reach map[*ssa.BasicBlock]runeSet, depth int) {
+		for _, b := range fn.Blocks {
+			for _, in := range b.Instrs {
+				c, ok := in.(*ssa.Call)
+				if !ok || c.Common().StaticCallee() == nil {
 					continue
 				}
-				st := runesReaching(cv, def.Block())
-				got := st[b]
-				if got.equal(want) {
-					r.OK("escapejs:raw", p.InstrPos(in), "raw set is %s", got.String())
-				} else {
-					r.Bad("escapejs:raw", p.InstrPos(in), "runes written unescaped are %s, promised %s", got.String(), want.String())
-				}
-			case "(*bytes.Buffer).WriteString", "(*strings.Builder).WriteString":
-				arg := c.Common().Args[1]
-				sp, ok := arg.(*ssa.Call)
-				if ok && sp.Common().StaticCallee() != nil && p.extName(sp.Common().StaticCallee()) == "fmt.Sprintf" {
-					if fs, isC := constString(sp.Common().Args[0]); isC && (fs == `\u%04X\u%04X` || fs == `\u%04x\u%04x`) {
-						// a surrogate pair: both halves are the results of utf16.EncodeRune(<the rune just read>)
-						nFmt++
-						vals := varargValues(sp.Common().Args[1])
-						pairOK := len(vals) == 2
-						for i, v := range vals {
-							ex, isEx := v.(*ssa.Extract)
-							if !isEx || ex.Index != i {
-								pairOK = false
-								continue
-							}
-							ec, isCall := ex.Tuple.(*ssa.Call)
-							if !isCall || ec.Common().StaticCallee() == nil || p.extName(ec.Common().StaticCallee()) != "unicode/utf16.EncodeRune" || ec.Common().Args[0] != rawRune {
-								pairOK = false
-							}
+				name := p.extName(c.Common().StaticCallee())
+				switch name {
+				case "(*bytes.Buffer).WriteRune", "(*strings.Builder).WriteRune":
+					nRaw++
+					cv := c.Common().Args[1]
+					var got runeSet
+					if cv == rawRune && reach != nil {
+						got = reach[b]
+					} else {
+						def, ok := cv.(ssa.Instruction)
+						if !ok {
+							r.Unk("escapejs:raw", p.InstrPos(in), "the raw rune is not a local value")
+							continue
 						}
-						if pairOK {
-							r.OK("escapejs:escaped:pair", p.InstrPos(in), "writes the UTF-16 surrogate pair of the rune just read, four digits each")
-						} else {
-							r.Bad("escapejs:escaped:pair", p.InstrPos(in), "a two-escape format is written with arguments that are not utf16.EncodeRune(<the rune just read>)")
-						}
-						continue
+						got = runesReaching(cv, def.Block())[b]
 					}
-					if fs, isC := constString(sp.Common().Args[0]); isC && (fs == `\u%04X` || fs == `\u%04x`) {
-						nFmt++
-						vals := varargValues(sp.Common().Args[1])
-						if len(vals) == 1 && vals[0] == rawRune {
-							// %04X is a minimum width: the rune must fit four hex digits here
-							if def, isDef := rawRune.(ssa.Instruction); isDef {
-								got := runesReaching(rawRune, def.Block())[b]
-								var maxR int64 = -1
-								for _, iv := range got {
-									if iv.hi > maxR {
-										maxR = iv.hi
+					if got.equal(want) {
+						r.OK("escapejs:raw", p.InstrPos(in), "raw set is %s", got.String())
+					} else {
+						r.Bad("escapejs:raw", p.InstrPos(in), "runes written unescaped are %s, promised %s", got.String(), want.String())
+					}
+				case "(*bytes.Buffer).WriteString", "(*strings.Builder).WriteString":
+					arg := c.Common().Args[1]
+					sp, ok := arg.(*ssa.Call)
+					if ok && sp.Common().StaticCallee() != nil && p.extName(sp.Common().StaticCallee()) == "fmt.Sprintf" {
+						if fs, isC := constString(sp.Common().Args[0]); isC && (fs == `\u%04X\u%04X` || fs == `\u%04x\u%04x`) {
+							// a surrogate pair: both halves are the results of utf16.EncodeRune(<the rune just read>)
+							nFmt++
+							vals := varargValues(sp.Common().Args[1])
+							pairOK := len(vals) == 2
+							for i, v := range vals {
+								ex, isEx := v.(*ssa.Extract)
+								if !isEx || ex.Index != i {
+									pairOK = false
+									continue
+								}
+								ec, isCall := ex.Tuple.(*ssa.Call)
+								if !isCall || ec.Common().StaticCallee() == nil || p.extName(ec.Common().StaticCallee()) != "unicode/utf16.EncodeRune" || ec.Common().Args[0] != rawRune {
+									pairOK = false
+								}
+							}
+							if pairOK {
+								r.OK("escapejs:escaped:pair", p.InstrPos(in), "writes the UTF-16 surrogate pair of the rune just read, four digits each")
+							} else {
+								r.Bad("escapejs:escaped:pair", p.InstrPos(in), "a two-escape format is written with arguments that are not utf16.EncodeRune(<the rune just read>)")
+							}
+							continue
+						}
+						if fs, isC := constString(sp.Common().Args[0]); isC && (fs == `\u%04X` || fs == `\u%04x`) {
+							nFmt++
+							vals := varargValues(sp.Common().Args[1])
+							if len(vals) == 1 && vals[0] != nil && vals[0] == rawRune {
+								// %04X is a minimum width: the rune must fit four hex digits here
+								if reach != nil {
+									got := reach[b]
+									var maxR int64 = -1
+									for _, iv := range got {
+										if iv.hi > maxR {
+											maxR = iv.hi
+										}
+									}
+									if maxR > 0xFFFF {
+										r.Bad("escapejs:escaped:width", p.InstrPos(in), "the rune written with %q can be as large as U+%X here: above U+FFFF the escape gets five or six digits, which JavaScript reads as a four-digit escape followed by text", fs, maxR)
+									} else {
+										r.OK("escapejs:escaped:width", p.InstrPos(in), "the rune is at most U+%X here: exactly four digits", maxR)
 									}
 								}
-								if maxR > 0xFFFF {
-									r.Bad("escapejs:escaped:width", p.InstrPos(in), "the rune written with %q can be as large as U+%X here: above U+FFFF the escape gets five or six digits, which JavaScript reads as a four-digit escape followed by text", fs, maxR)
-								} else {
-									r.OK("escapejs:escaped:width", p.InstrPos(in), "the rune is at most U+%X here: exactly four digits", maxR)
-								}
+								r.OK("escapejs:escaped", p.InstrPos(in), "writes Sprintf(%q, <the rune just read>)", fs)
+							} else if len(vals) == 1 && vals[0] != nil {
+								r.Bad("escapejs:escaped:"+p.VN(vals[0]), p.InstrPos(in), "writes the escape of %s, not of the character just read: the output does not decode to the input's characters", p.VN(vals[0]))
+							} else {
+								r.Unk("escapejs:escaped", p.InstrPos(in), "cannot read the Sprintf argument")
 							}
-							r.OK("escapejs:escaped", p.InstrPos(in), "writes Sprintf(%q, <the rune just read>)", fs)
-						} else if len(vals) == 1 {
-							r.Bad("escapejs:escaped:"+p.VN(vals[0]), p.InstrPos(in), "writes the escape of %s, not of the character just read: the output does not decode to the input's characters", p.VN(vals[0]))
-						} else {
-							r.Unk("escapejs:escaped", p.InstrPos(in), "cannot read the Sprintf argument")
+							continue
 						}
+					}
+					if s, isC := constString(arg); isC && isUEscapes(s) {
+						nFmt++
+						r.OK("escapejs:escaped", p.InstrPos(in), "writes the constant escape %q", s)
 						continue
 					}
+					r.Bad("escapejs:escaped", p.InstrPos(in), "escapejs writes %s, which is neither a raw whitelisted rune nor a \\uXXXX escape", p.VN(arg))
+				case "(*bytes.Buffer).WriteByte", "(*bytes.Buffer).Write":
+					r.Bad("escapejs:other", p.InstrPos(in), "escapejs writes raw bytes through %s", name)
+				default:
+					// a package helper that is handed the buffer (or the rune just read): its sinks are sinks of the
+					// filter, judged with the helper's parameter standing for the rune and the set of values the rune
+					// can have at this call
+					h, runeParam, isUnit := jsWriterUnit(p, c, rawRune)
+					if !isUnit || depth >= 3 || h == fn || h == f {
+						continue
+					}
+					var hreach map[*ssa.BasicBlock]runeSet
+					if runeParam != nil {
+						init := fullRunes()
+						if reach != nil {
+							init = reach[b]
+						}
+						hreach = runesReachingFrom(runeParam, h.Blocks[0], init)
+					}
+					var hr ssa.Value
+					if runeParam != nil {
+						hr = runeParam
+					}
+					scan(h, hr, hreach, depth+1)
 				}
-				if s, isC := constString(arg); isC && isUEscapes(s) {
-					nFmt++
-					r.OK("escapejs:escaped", p.InstrPos(in), "writes the constant escape %q", s)
-					continue
-				}
-				r.Bad("escapejs:escaped", p.InstrPos(in), "escapejs writes %s, which is neither a raw whitelisted rune nor a \\uXXXX escape", p.VN(arg))
-			case "(*bytes.Buffer).WriteByte", "(*bytes.Buffer).Write":
-				r.Bad("escapejs:other", p.InstrPos(in), "escapejs writes raw bytes through %s", name)
 			}
 		}
 	}
+	var reach map[*ssa.BasicBlock]runeSet
+	if def, isDef := rawRune.(ssa.Instruction); isDef {
+		reach = runesReaching(rawRune, def.Block())
+	}
+	scan(f, rawRune, reach, 0)
 	// nothing is dropped: between decoding a rune and going round the loop again something is written
 	for _, b := range f.Blocks {
 		for i, in := range b.Instrs {
@@ -657,14 +698,7 @@ func ruleC17JS(p *Prog, a *Anchors, r *Report) {
 				continue
 			}
 			first := hdr.Instrs[0]
-			isWrite := func(x ssa.Instruction) bool {
-				wc, ok := x.(*ssa.Call)
-				if !ok || wc.Common().StaticCallee() == nil {
-					return false
-				}
-				n := p.extName(wc.Common().StaticCallee())
-				return strings.HasPrefix(n, "(*bytes.Buffer).Write") || strings.HasPrefix(n, "(*strings.Builder).Write")
-			}
+			isWrite := func(x ssa.Instruction) bool { return jsIsWrite(p, x, 0) }
 			if MustPassFrom(b, i+1, first, isWrite) {
 				r.OK("escapejs:nothing-dropped", p.InstrPos(in), "every decoded rune leads to a write before the next one is read")
 			} else {
@@ -920,57 +954,46 @@ func ruleC17TagNames(p *Prog, a *Anchors, r *Report) {
 		r.Unk("registry:removetags", "-", "anchor unresolved")
 		return
 	}
-	pat := ""
-	for _, b := range f.Blocks {
-		for _, in := range b.Instrs {
-			c, ok := in.(*ssa.Call)
-			if !ok || c.Common().StaticCallee() == nil || p.extName(c.Common().StaticCallee()) != "(*regexp.Regexp).MatchString" {
-				continue
-			}
-			if u, ok := c.Common().Args[0].(*ssa.UnOp); ok {
-				if g, ok := u.X.(*ssa.Global); ok {
-					if ic := globalInitCall(p, g); ic != nil {
-						pat, _ = constString(ic.Common().Args[0])
-					}
-				}
-			}
-		}
-	}
-	if pat == "" {
+	// the validation: MatchString of a constant pattern, in the filter function or in the helper of its cluster the
+	// validation loop over the names was moved into
+	pats := tagnamePatterns(p, f)
+	if len(pats) == 0 {
 		r.Unk("removetags:pattern", p.Pos(f.Pos()), "no constant validation pattern found")
 		return
 	}
-	re, err := regexp.Compile(pat)
-	if err != nil {
-		r.Bad("removetags:pattern", p.Pos(f.Pos()), "pattern %q does not compile", pat)
-		return
-	}
-	ref := regexp.MustCompile(`^[a-zA-Z][a-zA-Z0-9]*$`)
-	alphabet := []string{"a", "Z", "1", "-", "<", "|", "."}
-	var bad string
-	n := 0
-	var gen func(prefix string, left int)
-	gen = func(prefix string, left int) {
+	for _, pat := range pats {
+		re, err := regexp.Compile(pat)
+		if err != nil {
+			r.Bad("removetags:pattern", p.Pos(f.Pos()), "pattern %q does not compile", pat)
+			return
+		}
+		ref := regexp.MustCompile(`^[a-zA-Z][a-zA-Z0-9]*$`)
+		alphabet := []string{"a", "Z", "1", "-", "<", "|", "."}
+		var bad string
+		n := 0
+		var gen func(prefix string, left int)
+		gen = func(prefix string, left int) {
+			if bad != "" {
+				return
+			}
+			n++
+			if re.MatchString(prefix) != ref.MatchString(prefix) {
+				bad = prefix
+				return
+			}
+			if left == 0 {
+				return
+			}
+			for _, ch := range alphabet {
+				gen(prefix+ch, left-1)
+			}
+		}
+		gen("", 3)
 		if bad != "" {
-			return
+			r.Bad("removetags:pattern", p.Pos(f.Pos()), "pattern %q says %v for the tag name %q, a tag name is letter(letter|digit)*: %s", pat, re.MatchString(bad), bad, map[bool]string{true: "such a name puts regexp syntax into the expression built from it", false: "tags with that name can never be removed"}[re.MatchString(bad)])
+		} else {
+			r.OK("removetags:pattern", p.Pos(f.Pos()), "pattern %q agrees with letter(letter|digit)* on %d strings", pat, n)
 		}
-		n++
-		if re.MatchString(prefix) != ref.MatchString(prefix) {
-			bad = prefix
-			return
-		}
-		if left == 0 {
-			return
-		}
-		for _, ch := range alphabet {
-			gen(prefix+ch, left-1)
-		}
-	}
-	gen("", 3)
-	if bad != "" {
-		r.Bad("removetags:pattern", p.Pos(f.Pos()), "pattern %q says %v for the tag name %q, a tag name is letter(letter|digit)*: %s", pat, re.MatchString(bad), bad, map[bool]string{true: "such a name puts regexp syntax into the expression built from it", false: "tags with that name can never be removed"}[re.MatchString(bad)])
-	} else {
-		r.OK("removetags:pattern", p.Pos(f.Pos()), "pattern %q agrees with letter(letter|digit)* on %d strings", pat, n)
 	}
 	// the expression built from the names: instantiated for the names a and b and evaluated on all strings of up to 7
 	// items over {<, >, /, a, b, -, x, space}: every plain named tag (<a>, </a>, <a/>) is matched, and everything that is
